@@ -740,3 +740,90 @@ pub fn selftest() -> Result<(), String> {
     }
     Ok(())
 }
+
+// ---------------------------------------------------------------------------------------------
+// helpers shared by the AMF0 checks
+
+/// class of the first difference between two canonical values (for violation signatures)
+pub fn diff_class(got: &V, want: &V) -> String {
+    match (got, want) {
+        (V::Num(a), V::Num(b)) => {
+            if a == b {
+                "same".into()
+            } else {
+                "number-bits".into()
+            }
+        }
+        (V::Bool(a), V::Bool(b)) => {
+            if a == b {
+                "same".into()
+            } else {
+                "boolean".into()
+            }
+        }
+        (V::Str(a), V::Str(b)) => {
+            if a == b {
+                "same".into()
+            } else if a.len() != b.len() {
+                "string-length".into()
+            } else {
+                "string-bytes".into()
+            }
+        }
+        (V::Null, V::Null) | (V::Undef, V::Undef) => "same".into(),
+        (V::Arr(a), V::Arr(b)) => {
+            if a.len() != b.len() {
+                return "array-length".into();
+            }
+            for (x, y) in a.iter().zip(b.iter()) {
+                let c = diff_class(x, y);
+                if c != "same" {
+                    return c;
+                }
+            }
+            "same".into()
+        }
+        (V::Obj(a), V::Obj(b)) => {
+            let ka: Vec<&String> = a.iter().map(|x| &x.0).collect();
+            let kb: Vec<&String> = b.iter().map(|x| &x.0).collect();
+            if ka != kb {
+                return "object-property-names".into();
+            }
+            for (x, y) in a.iter().zip(b.iter()) {
+                let c = diff_class(&x.1, &y.1);
+                if c != "same" {
+                    return c;
+                }
+            }
+            "same".into()
+        }
+        _ => "value-type".into(),
+    }
+}
+
+pub fn seq_diff_class(got: &[V], want: &[V]) -> String {
+    if got.len() != want.len() {
+        return "sequence-length".into();
+    }
+    for (x, y) in got.iter().zip(want.iter()) {
+        let c = diff_class(x, y);
+        if c != "same" {
+            return c;
+        }
+    }
+    "same".into()
+}
+
+/// Run the library decoder; returns canonical values and the number of bytes consumed.
+pub fn lib_decode(bytes: &[u8]) -> Result<(Vec<V>, usize), String> {
+    let mut cur = std::io::Cursor::new(bytes);
+    match rml_amf0::deserialize(&mut cur) {
+        Ok(vs) => Ok((seq_from_lib(&vs), cur.position() as usize)),
+        Err(e) => Err(format!("{:?}", e)),
+    }
+}
+
+pub fn lib_encode(vs: &[V]) -> Result<Vec<u8>, String> {
+    let l = seq_to_lib(vs);
+    rml_amf0::serialize(&l).map_err(|e| format!("{:?}", e))
+}
